@@ -47,6 +47,9 @@ pub struct FsCfg {
     /// Sub-sector tearing (finer than real disks; separate family, see DESIGN 3.4).
     #[serde(default)]
     pub subsector: bool,
+    /// Crash images taken and checked at every sync inside a commit (crash-state exploration).
+    #[serde(default)]
+    pub explore: u32,
 }
 
 #[derive(Serialize, Deserialize, Clone, Debug, PartialEq)]
@@ -108,9 +111,31 @@ pub enum Step {
     SessRecv { r: usize, s: usize, from_r: usize, from_s: usize, m: usize, garble: Option<u32> },
     SessClose { r: usize, s: usize },
     CacheAdd { r: usize, peer: usize, sel: Sel, bogus: u8 },
-    Crash { r: usize, at: u32, choices: u64 },
+    Crash {
+        r: usize,
+        at: u32,
+        choices: u64,
+        /// Count `at` mutating calls from the replica's next `fallocate` instead of from now.
+        #[serde(default)]
+        after_falloc: bool,
+    },
+    /// Drive a fresh real `TraversalQueue` directly (C21; the monitor is the oracle). Reaches the
+    /// documented rule branches no current caller in the runtime reaches.
+    QueueDrive { ops: Vec<QOp> },
     Restart { r: usize },
     Quiesce,
+}
+
+#[derive(Serialize, Deserialize, Clone, Debug, PartialEq)]
+pub enum QOp {
+    Clear,
+    Push { seg: u8, mc: u8, covered: bool },
+    PushDup { seg: u8, mc: u8 },
+    Pop,
+    PopDups,
+    DrainAbove { th: u8 },
+    CoverUpTo { seg: u8, cov: u8, longest: u8 },
+    DrainAll,
 }
 
 /// A violation candidate found during a run.
@@ -255,7 +280,7 @@ impl Sim {
         let fs = if cfg.file_backed.iter().any(|f| *f) {
             let fs = Rc::new(crate::simfs::SimFs::new(
                 cfg.seed,
-                crate::simfs::FsFaults { eintr_pct: cfg.fs.eintr_pct, short_pct: cfg.fs.short_pct, eio_permille: cfg.fs.eio_permille, enospc_permille: cfg.fs.enospc_permille, subsector: cfg.fs.subsector },
+                crate::simfs::FsFaults { eintr_pct: cfg.fs.eintr_pct, short_pct: cfg.fs.short_pct, eio_permille: cfg.fs.eio_permille, enospc_permille: cfg.fs.enospc_permille, subsector: cfg.fs.subsector, explore: cfg.fs.explore },
             ));
             aranya_libc::verif::install(Some(Rc::clone(&fs) as Rc<dyn aranya_libc::verif::SimSys>));
             Some(fs)
